@@ -20,6 +20,7 @@
 #include <cstdlib>
 #include <cstring>
 #include <fstream>
+#include <map>
 #include <sstream>
 #include <unistd.h>
 #include <sys/stat.h>
@@ -361,6 +362,8 @@ int main(int argc, char** argv)
 
     Stats st;
     int violations = 0, nondet = 0;
+    std::map<std::string, int> class_count;
+    int64_t uncounted_extra = 0;
     std::ofstream hf;
     if (!hashes_path.empty()) hf.open(hashes_path);
     auto t0 = std::chrono::steady_clock::now();
@@ -381,13 +384,14 @@ int main(int argc, char** argv)
         ++st.cases;
         if (hf.is_open()) hf << i << " " << combine(cx.hashes) << "\n";
         done_upto = i + 1;
-        // one report per violation class per case
+        // one report per violation class per case; after a few fully processed reports of a class the rest is only counted
         std::vector<std::string> seen;
         for (const Violation& v : vs)
         {
             std::string key = v.property + "/" + v.cls;
             if (std::find(seen.begin(), seen.end(), key) != seen.end()) continue;
             seen.push_back(key);
+            if (++class_count[key] > 3) { ++uncounted_extra; st.add("violations_not_minimised." + v.cls); continue; }
             // gate 1: the same plan, executed again in this process, gives the same history and the same class
             std::vector<uint64_t> h1, h2;
             std::vector<Violation> again1 = run_case_quiet(pr, v.plan, &h1);
@@ -418,6 +422,7 @@ int main(int argc, char** argv)
             std::printf("VIOL %s\n", js::dump(j).c_str());
         }
         alarm(0);
+        if (violations + uncounted_extra >= 60) break;     // the verdict is settled; do not grind through a broken tree
     }
     g_cur_index = -1;
     double wall = std::chrono::duration<double>(std::chrono::steady_clock::now() - t0).count();
@@ -425,7 +430,7 @@ int main(int argc, char** argv)
     s.set("property", prop); s.set("seed", js::Value(int64_t(seed)));
     s.set("from", js::Value(int64_t(from))); s.set("to", js::Value(int64_t(to))); s.set("done_upto", js::Value(int64_t(done_upto)));
     s.set("cases", js::Value(st.cases)); s.set("runs", js::Value(st.runs));
-    s.set("violations", violations); s.set("nondeterministic", nondet);
+    s.set("violations", violations); s.set("nondeterministic", nondet); s.set("further_violations_counted_only", js::Value(uncounted_extra));
     s.set("seq_total", js::Value(st.seq_total)); s.set("steps_total", js::Value(st.steps_total));
     s.set("wall_s", js::Value(wall));
     s.set("tsan_reports_total", js::Value(simrt::tsan_reports()));
